@@ -17,6 +17,8 @@ Section.merge, the link setter and clean/unmerge as programs over the primitive 
 import OdmlModel.Proofs.HeapStep
 import OdmlModel.Proofs.HeapExt
 import OdmlModel.Proofs.HeapQuery
+import OdmlModel.Proofs.HeapExtFuel
+import OdmlModel.Proofs.HeapExtCount
 
 namespace C03
 open Heap
@@ -494,6 +496,439 @@ theorem stored_link_refused_unchanged (fuel : Nat) :
       (storedLinkState, .raised .valueError) := rfl
   exact stored_link_not_reassigned _ _ _ _ _ _ _ _ (by decide) (by decide) h1 h2 (by decide)
 
+/-! ## The recursion budget (`fuel`) of the extended operations
+
+`.fuel` is the model's answer when the recursion budget is used up (Python: RecursionError or no
+termination). `clone_terminates` above shows that it is dead for clone. The theorems below do the
+same for clean / unmerge, merge and the link setter (`Proofs/HeapExtFuel.lean`), and show that
+the budget has no other influence: an answer that is not `.fuel` is the answer for every larger
+budget. -/
+
+/-- Fuel monotonicity, for every operation of the extended set, every state and every oracle:
+    once an operation answers (anything but `.fuel`), every larger budget gives the same answer
+    *and the same state*. No hypothesis. -/
+theorem budget_monotone (fuel fuel' : Nat) (s : X) (O : Oracle) (op : XOp) (hle : fuel ≤ fuel')
+    (h : (stepX fuel s O op).2 ≠ .fuel) : stepX fuel' s O op = stepX fuel s O op :=
+  mono_le (fun f => stepX f s O op) (fun r => r.2 ≠ .fuel) (fun f hf => stepX_mono f s O op hf)
+    fuel fuel' hle h
+
+/-- Two budgets under which an operation answers give the same result. -/
+theorem budget_irrelevant (f1 f2 : Nat) (s : X) (O : Oracle) (op : XOp)
+    (h1 : (stepX f1 s O op).2 ≠ .fuel) (h2 : (stepX f2 s O op).2 ≠ .fuel) :
+    stepX f1 s O op = stepX f2 s O op := by
+  rcases Nat.le_total f1 f2 with h | h
+  · exact (budget_monotone f1 f2 s O op h h1).symm
+  · exact budget_monotone f2 f1 s O op h h2
+
+/-- The same for the recursive procedures themselves (used by the harness-independent statements
+    below): merge, unmerge, clean, the link setter. -/
+theorem merge_budget_monotone (O : Oracle) (fuel fuel' : Nat) (s : X) (record : Bool) (dest src : Nat)
+    (hle : fuel ≤ fuel') (h : (mergeAux O fuel s record dest src).2 ≠ .fuel) :
+    mergeAux O fuel' s record dest src = mergeAux O fuel s record dest src :=
+  mono_le (fun f => mergeAux O f s record dest src) (fun r => r.2 ≠ .fuel)
+    (fun f hf => mergeAux_mono O f s record dest src hf) fuel fuel' hle h
+
+theorem unmerge_budget_monotone (O : Oracle) (fuel fuel' : Nat) (s : X) (self target : Nat)
+    (hle : fuel ≤ fuel') (h : (unmergeAux O fuel s self target).2 ≠ .fuel) :
+    unmergeAux O fuel' s self target = unmergeAux O fuel s self target :=
+  mono_le (fun f => unmergeAux O f s self target) (fun r => r.2 ≠ .fuel)
+    (fun f hf => unmergeAux_mono O f s self target hf) fuel fuel' hle h
+
+theorem clean_budget_monotone (O : Oracle) (fuel fuel' : Nat) (s : X) (x : Nat)
+    (hle : fuel ≤ fuel') (h : (cleanAux O fuel s x).2 ≠ .fuel) :
+    cleanAux O fuel' s x = cleanAux O fuel s x :=
+  mono_le (fun f => cleanAux O f s x) (fun r => r.2 ≠ .fuel)
+    (fun f hf => cleanAux_mono O f s x hf) fuel fuel' hle h
+
+theorem link_budget_monotone (O : Oracle) (fuel fuel' : Nat) (s : X) (x : Nat) (v : LinkVal)
+    (hle : fuel ≤ fuel') (h : (setLinkAux O fuel s x v).2 ≠ .fuel) :
+    setLinkAux O fuel' s x v = setLinkAux O fuel s x v :=
+  mono_le (fun f => setLinkAux O f s x v) (fun r => r.2 ≠ .fuel)
+    (fun f hf => setLinkAux_mono O f s x v hf) fuel fuel' hle h
+
+/-- `unmerge` terminates: on a well-formed heap a budget of `2 * size + 1` is never used up,
+    whatever Sections `self` and `target` are and whatever the oracle answers (the recursion
+    descends along child edges the heap had at the start - unmerge only removes -, a parent chain
+    has no repetition, and a live child list never gets longer than `size`). -/
+theorem unmerge_terminates (fuel : Nat) (s : X) (O : Oracle) (self target : Nat) (w : WF s.h)
+    (hs : 0 < s.h.size) (hf : 2 * s.h.size + 1 ≤ fuel) :
+    (unmergeAux O fuel s self target).2 ≠ .fuel :=
+  unmergeAux_no_fuel O w fuel s self target [] ⟨w, Detaches.refl _⟩
+    (fun ht => ⟨ht, fun p hp => absurd hp List.not_mem_nil, List.nodup_nil⟩)
+    (by simp only [List.length_nil]; omega) (by simpa using hf)
+
+/-- `clean` terminates: on a well-formed heap a budget of `3 * size + 2` is never used up. -/
+theorem clean_terminates (fuel : Nat) (s : X) (O : Oracle) (x : Nat) (w : WF s.h)
+    (hf : 3 * s.h.size + 2 ≤ fuel) : (stepX fuel s O (.clean x)).2 ≠ .fuel := by
+  unfold stepX
+  simp only
+  split
+  · simp
+  · rename_i hg
+    have hx : x < s.h.size := by
+      rcases Nat.lt_or_ge x s.h.size with h1 | h1
+      · exact h1
+      · exfalso; apply hg; simp [XOp.handles, h1]
+    split
+    · simp
+    · exact cleanAux_no_fuel O w fuel { s with orig := id } x [] ⟨w, Detaches.refl _⟩
+        ⟨hx, fun p hp => absurd hp List.not_mem_nil, List.nodup_nil⟩ (by simpa using hf)
+
+/-- ... and its result is the same for all budgets from `3 * size + 2` on. -/
+theorem clean_budget_independent (f1 f2 : Nat) (s : X) (O : Oracle) (x : Nat) (w : WF s.h)
+    (h1 : 3 * s.h.size + 2 ≤ f1) (h2 : 3 * s.h.size + 2 ≤ f2) :
+    stepX f1 s O (.clean x) = stepX f2 s O (.clean x) :=
+  budget_irrelevant f1 f2 s O (.clean x) (clean_terminates f1 s O x w h1) (clean_terminates f2 s O x w h2)
+
+/-- `merge` terminates when destination and source are *apart* - neither is the other or above the
+    other (`apart`: the library's own `_check_no_cycle` walk from each of the two does not meet the
+    other): on a well-formed heap a budget of `2 * size + 2` is never used up, whatever the oracle
+    answers and however many copies the merge makes (the recursion descends along child edges of
+    the source, which the merge - it only touches what is at or below the destination, and new
+    objects - leaves as they were; the loops over the source's child lists therefore see lists of
+    constant length). This is the hypothesis that excludes the case noted in DESIGN 0.3 / design.d:
+    a Section linked to its own ancestor (`ancestor_link_unfolds` below). -/
+theorem merge_terminates (fuel : Nat) (s : X) (O : Oracle) (dest src : Nat) (w : WF s.h)
+    (ha : apart s.h dest src = true) (hf : 2 * s.h.size + 2 ≤ fuel) :
+    (stepX fuel s O (.merge dest src)).2 ≠ .fuel := by
+  unfold stepX
+  simp only
+  split
+  · simp
+  · rename_i hg
+    have hs : src < s.h.size := by
+      rcases Nat.lt_or_ge src s.h.size with h1 | h1
+      · exact h1
+      · exfalso; apply hg; simp [XOp.handles, h1]
+    split
+    · simp
+    · obtain ⟨h1, h2⟩ := apart_spec w ha
+      exact mergeAux_no_fuel_apart O fuel { s with orig := id } _ dest src w hs h1 h2 hf
+
+/-- ... and its result is the same for all budgets from `2 * size + 2` on. -/
+theorem merge_budget_independent (f1 f2 : Nat) (s : X) (O : Oracle) (dest src : Nat) (w : WF s.h)
+    (ha : apart s.h dest src = true) (h1 : 2 * s.h.size + 2 ≤ f1) (h2 : 2 * s.h.size + 2 ≤ f2) :
+    stepX f1 s O (.merge dest src) = stepX f2 s O (.merge dest src) :=
+  budget_irrelevant f1 f2 s O (.merge dest src) (merge_terminates f1 s O dest src w ha h1)
+    (merge_terminates f2 s O dest src w ha h2)
+
+/-- The link setter terminates. Hypothesis `linkApart`: a Section designated by the assigned path
+    is apart from `x`; and, needed only if the link of `x` is resolved when the assignment begins,
+    so is the Section its previous link designates (which the `except` branch merges again when
+    the new merge is refused). The budget `linkBudget` is computed from the state: `3 * size + 2`
+    for `None` / a falsy value / a path that finds nothing; for a path that designates `t`, three
+    times the number of objects after `clean()` and the merge of `t` plus 3 (a refused merge may
+    have added copies before it raised, and the `except` branch cleans and merges in that state).
+    After `clean()` the Section is not resolved and a refused merge leaves it so, hence the
+    `except` branch does not nest (fix 592a7e3; before it: `legacy_relink_runs_out_of_budget`). -/
+theorem link_terminates (fuel : Nat) (s : X) (O : Oracle) (x : Nat) (v : LinkVal) (w : WF s.h)
+    (ha : linkApart O { s with orig := id } x v = true)
+    (hf : linkBudget O { s with orig := id } x v ≤ fuel) :
+    (stepX fuel s O (.setLink x v)).2 ≠ .fuel := by
+  unfold stepX
+  simp only
+  split
+  · simp
+  · rename_i hg
+    have hx : x < s.h.size := by
+      rcases Nat.lt_or_ge x s.h.size with h1 | h1
+      · exact h1
+      · exfalso; apply hg
+        cases v with
+        | path tt => cases tt <;> simp [XOp.handles, h1]
+        | _ => simp [XOp.handles, h1]
+    split
+    · simp
+    · rename_i hk
+      have hk' : (s.h.node x).kind = .sec := by
+        cases hkk : (s.h.node x).kind with
+        | sec => rfl
+        | _ => rw [hkk] at hk; simp at hk
+      obtain ⟨h1, h2⟩ := linkApart_spec (s := { s with orig := id }) w ha
+      refine setLinkAux_no_fuel O fuel { s with orig := id } x v w hx hk' ?_ h2 hf
+      intro t hv
+      have ht : t < s.h.size := by
+        rcases Nat.lt_or_ge t s.h.size with hge | hge
+        · exact hge
+        · exfalso; apply hg; subst hv; simp [XOp.handles, hge]
+      exact ⟨ht, h1 t hv⟩
+
+/-- The plain case: the link of `x` is not resolved when the assignment begins (no link, or one
+    that is only stored). Budget `3 * size + 2`. -/
+theorem link_terminates_unresolved (fuel : Nat) (s : X) (O : Oracle) (x : Nat) (v : LinkVal)
+    (w : WF s.h) (hr : s.resolved x = false)
+    (ha : ∀ t, v = .path (some t) → apart s.h x t = true)
+    (hf : 3 * s.h.size + 2 ≤ fuel) :
+    (stepX fuel s O (.setLink x v)).2 ≠ .fuel := by
+  unfold stepX
+  simp only
+  split
+  · simp
+  · rename_i hg
+    have hx : x < s.h.size := by
+      rcases Nat.lt_or_ge x s.h.size with h1 | h1
+      · exact h1
+      · exfalso; apply hg
+        cases v with
+        | path tt => cases tt <;> simp [XOp.handles, h1]
+        | _ => simp [XOp.handles, h1]
+    split
+    · simp
+    · refine setLinkAux_no_fuel_unresolved O fuel { s with orig := id } x v w hx hr ?_ hf
+      intro t hv
+      have ht : t < s.h.size := by
+        rcases Nat.lt_or_ge t s.h.size with h1 | h1
+        · exact h1
+        · exfalso; apply hg; subst hv; simp [XOp.handles, h1]
+      exact ⟨ht, apart_spec w (ha t hv)⟩
+
+/-- ... and the result of the link setter is the same for all budgets from `linkBudget` on. -/
+theorem link_budget_independent (f1 f2 : Nat) (s : X) (O : Oracle) (x : Nat) (v : LinkVal)
+    (w : WF s.h) (ha : linkApart O { s with orig := id } x v = true)
+    (h1 : linkBudget O { s with orig := id } x v ≤ f1)
+    (h2 : linkBudget O { s with orig := id } x v ≤ f2) :
+    stepX f1 s O (.setLink x v) = stepX f2 s O (.setLink x v) :=
+  budget_irrelevant f1 f2 s O (.setLink x v) (link_terminates f1 s O x v w ha h1)
+    (link_terminates f2 s O x v w ha h2)
+
+/-- Histories: if every operation of a history answers within the budget, the whole history ends in
+    the same state under every larger budget. -/
+theorem run_budget_monotone (fuel fuel' : Nat) (hle : fuel ≤ fuel') :
+    ∀ (ops : List (Oracle × XOp)) (s : X),
+      (∀ (pre : List (Oracle × XOp)) (op : Oracle × XOp) (post : List (Oracle × XOp)),
+        ops = pre ++ op :: post → (stepX fuel (runX fuel s pre) op.1 op.2).2 ≠ .fuel) →
+      runX fuel' s ops = runX fuel s ops := by
+  intro ops
+  induction ops with
+  | nil => intro s _; rfl
+  | cons op ops ih =>
+    intro s h
+    have h0 := h [] op ops rfl
+    have e0 := budget_monotone fuel fuel' s op.1 op.2 hle h0
+    show runX fuel' (stepX fuel' s op.1 op.2).1 ops = runX fuel (stepX fuel s op.1 op.2).1 ops
+    rw [e0]
+    apply ih
+    intro pre o post hops
+    have := h (op :: pre) o post (by rw [hops]; rfl)
+    exact this
+
+/-- The three termination statements for the states the property quantifies over: every state
+    reachable by a history over the extended operation set (which is well-formed, `wf_reachable`). -/
+theorem reachable_ops_terminate (fuel0 : Nat) (ops : List (Oracle × XOp)) (O : Oracle) (fuel : Nat) :
+    (∀ x, 3 * (runX fuel0 X.empty ops).h.size + 2 ≤ fuel →
+      (stepX fuel (runX fuel0 X.empty ops) O (.clean x)).2 ≠ .fuel) ∧
+    (∀ dest src, apart (runX fuel0 X.empty ops).h dest src = true →
+      2 * (runX fuel0 X.empty ops).h.size + 2 ≤ fuel →
+      (stepX fuel (runX fuel0 X.empty ops) O (.merge dest src)).2 ≠ .fuel) ∧
+    (∀ x v, linkApart O { runX fuel0 X.empty ops with orig := id } x v = true →
+      linkBudget O { runX fuel0 X.empty ops with orig := id } x v ≤ fuel →
+      (stepX fuel (runX fuel0 X.empty ops) O (.setLink x v)).2 ≠ .fuel) :=
+  ⟨fun x hf => clean_terminates fuel _ O x (wf_reachable fuel0 ops) hf,
+   fun dest src ha hf => merge_terminates fuel _ O dest src (wf_reachable fuel0 ops) ha hf,
+   fun x v ha hf => link_terminates fuel _ O x v (wf_reachable fuel0 ops) ha hf⟩
+
+/-! #### Histories: a budget computed from the history suffices -/
+
+/-- The hypothesis of the termination theorems, per operation (`true` where none is needed). -/
+def opHyp (s : X) (O : Oracle) : XOp → Bool
+  | .merge dest src =>
+    -- (an operand that is not a Section is refused at once)
+    (s.h.node dest).kind != .sec || (s.h.node src).kind != .sec || apart s.h dest src
+  | .setLink x v => (s.h.node x).kind != .sec || linkApart O { s with orig := id } x v
+  | _ => true
+
+/-- The budget of the termination theorems, per operation, computed from the state. -/
+def opBudget (s : X) (O : Oracle) : XOp → Nat
+  | .prim _ => 0
+  | .clone _ _ _ => s.h.size
+  | .merge _ _ => 2 * s.h.size + 2
+  | .setLink x v => linkBudget O { s with orig := id } x v
+  | .clean _ => 3 * s.h.size + 2
+
+/-- All five kinds of operation in one statement: on a well-formed heap, under `opHyp`, a budget of
+    `opBudget` is never used up. -/
+theorem op_terminates (fuel : Nat) (s : X) (O : Oracle) (op : XOp) (w : WF s.h)
+    (hh : opHyp s O op = true) (hf : opBudget s O op ≤ fuel) : (stepX fuel s O op).2 ≠ .fuel := by
+  cases op with
+  | prim p =>
+    unfold stepX
+    simp only
+    split
+    · simp
+    · exact prim_no_fuel _ _
+  | clone x ch kid => exact clone_terminates fuel s O x ch kid w hf
+  | merge dest src =>
+    by_cases hk : (s.h.node dest).kind ≠ .sec ∨ (s.h.node src).kind ≠ .sec
+    · unfold stepX
+      simp only
+      split
+      · simp
+      · simp
+    · have ha : apart s.h dest src = true := by
+        simp only [opHyp, Bool.or_eq_true, bne_iff_ne] at hh
+        rcases hh with (h | h) | h
+        · exact absurd (Or.inl h) hk
+        · exact absurd (Or.inr h) hk
+        · exact h
+      exact merge_terminates fuel s O dest src w ha hf
+  | setLink x v =>
+    by_cases hk : (s.h.node x).kind ≠ .sec
+    · unfold stepX
+      simp only
+      split
+      · simp
+      · simp
+    · have ha : linkApart O { s with orig := id } x v = true := by
+        simp only [opHyp, Bool.or_eq_true, bne_iff_ne] at hh
+        rcases hh with h | h
+        · exact absurd h hk
+        · exact h
+      exact link_terminates fuel s O x v w ha hf
+  | clean x => exact clean_terminates fuel s O x w hf
+
+/-- Budget and hypothesis of a whole history: those of each operation in the state the history
+    has reached by then (run, operation by operation, with the budget of that operation). -/
+def histBudget : X → List (Oracle × XOp) → Nat
+  | _, [] => 0
+  | s, op :: ops =>
+    max (opBudget s op.1 op.2) (histBudget (stepX (opBudget s op.1 op.2) s op.1 op.2).1 ops)
+
+def histHyp : X → List (Oracle × XOp) → Bool
+  | _, [] => true
+  | s, op :: ops =>
+    opHyp s op.1 op.2 && histHyp (stepX (opBudget s op.1 op.2) s op.1 op.2).1 ops
+
+/-- Every finite history whose merges and link assignments keep destination and source apart
+    terminates: with any budget from `histBudget` on, no operation of it answers `.fuel`, and the
+    final state does not depend on the budget. (A finite run of `Document.finalize()` over links
+    that are apart from their targets is such a history.) -/
+theorem history_terminates : ∀ (ops : List (Oracle × XOp)) (s : X), WF s.h → histHyp s ops = true →
+    ∀ fuel, histBudget s ops ≤ fuel →
+      (∀ (pre : List (Oracle × XOp)) (op : Oracle × XOp) (post : List (Oracle × XOp)),
+        ops = pre ++ op :: post → (stepX fuel (runX fuel s pre) op.1 op.2).2 ≠ .fuel) ∧
+      runX fuel s ops = runX (histBudget s ops) s ops := by
+  intro ops
+  induction ops with
+  | nil =>
+    intro s _ _ fuel _
+    refine ⟨?_, rfl⟩
+    intro pre op post h
+    cases pre <;> cases h
+  | cons op ops ih =>
+    intro s w hh fuel hf
+    unfold histHyp at hh
+    simp only [Bool.and_eq_true] at hh
+    unfold histBudget at hf ⊢
+    have hb : opBudget s op.1 op.2 ≤ fuel := Nat.le_trans (Nat.le_max_left _ _) hf
+    have hb' : histBudget (stepX (opBudget s op.1 op.2) s op.1 op.2).1 ops ≤ fuel :=
+      Nat.le_trans (Nat.le_max_right _ _) hf
+    have t0 := op_terminates (opBudget s op.1 op.2) s op.1 op.2 w hh.1 (Nat.le_refl _)
+    have e1 : stepX fuel s op.1 op.2 = stepX (opBudget s op.1 op.2) s op.1 op.2 :=
+      budget_monotone _ _ s op.1 op.2 hb t0
+    have e2 : stepX (max (opBudget s op.1 op.2)
+          (histBudget (stepX (opBudget s op.1 op.2) s op.1 op.2).1 ops)) s op.1 op.2 =
+        stepX (opBudget s op.1 op.2) s op.1 op.2 :=
+      budget_monotone _ _ s op.1 op.2 (Nat.le_max_left _ _) t0
+    have w' : WF (stepX (opBudget s op.1 op.2) s op.1 op.2).1.h := wf_step_ext _ s w op.1 op.2
+    obtain ⟨ih1, ih2⟩ := ih _ w' hh.2 fuel hb'
+    obtain ⟨_, ih3⟩ := ih _ w' hh.2 (max (opBudget s op.1 op.2)
+      (histBudget (stepX (opBudget s op.1 op.2) s op.1 op.2).1 ops)) (Nat.le_max_right _ _)
+    refine ⟨?_, ?_⟩
+    · intro pre o post h
+      cases pre with
+      | nil =>
+        simp only [List.nil_append, List.cons.injEq] at h
+        rw [← h.1]
+        show (stepX fuel s op.1 op.2).2 ≠ .fuel
+        rw [e1]; exact t0
+      | cons p pre' =>
+        simp only [List.cons_append, List.cons.injEq] at h
+        rw [← h.1]
+        show (stepX fuel (runX fuel (stepX fuel s op.1 op.2).1 pre') o.1 o.2).2 ≠ .fuel
+        rw [e1]
+        exact ih1 pre' o post h.2
+    · show runX fuel (stepX fuel s op.1 op.2).1 ops =
+        runX _ (stepX (max (opBudget s op.1 op.2)
+          (histBudget (stepX (opBudget s op.1 op.2) s op.1 op.2).1 ops)) s op.1 op.2).1 ops
+      rw [e1, e2, ih2, ih3]
+
+/-- A merge whose source is apart from the destination at most doubles the number of objects:
+    every object it adds is a copy of a different object at or below the source
+    (`Proofs/HeapExtCount.lean`). For every budget and oracle, whether it succeeds or raises. -/
+theorem merge_at_most_doubles (fuel : Nat) (s : X) (O : Oracle) (dest src : Nat) (w : WF s.h)
+    (ha : apart s.h dest src = true) :
+    (stepX fuel s O (.merge dest src)).1.h.size ≤ 2 * s.h.size := by
+  unfold stepX
+  simp only
+  split
+  · show s.h.size ≤ 2 * s.h.size; omega
+  · rename_i hg
+    have hs : src < s.h.size := by
+      rcases Nat.lt_or_ge src s.h.size with h1 | h1
+      · exact h1
+      · exfalso; apply hg; simp [XOp.handles, h1]
+    split
+    · show s.h.size ≤ 2 * s.h.size; omega
+    · obtain ⟨h1, h2⟩ := apart_spec w ha
+      exact mergeAux_size_le O fuel { s with orig := id } _ dest src w hs h1 h2 (fun _ _ => rfl)
+
+/-- The link setter with a closed budget: under `linkApart`, `6 * size + 3` is never used up
+    (`linkBudget ≤ 6 * size + 3`, by `merge_at_most_doubles`). -/
+theorem link_terminates_closed (fuel : Nat) (s : X) (O : Oracle) (x : Nat) (v : LinkVal) (w : WF s.h)
+    (ha : linkApart O { s with orig := id } x v = true) (hf : 6 * s.h.size + 3 ≤ fuel) :
+    (stepX fuel s O (.setLink x v)).2 ≠ .fuel := by
+  by_cases hg : (XOp.setLink x v).handles.any (fun i => i ≥ s.h.size) = true
+  · unfold stepX
+    simp only
+    rw [if_pos hg]; simp
+  · refine link_terminates fuel s O x v w ha (Nat.le_trans ?_ hf)
+    have hx : x < s.h.size := by
+      rcases Nat.lt_or_ge x s.h.size with h1 | h1
+      · exact h1
+      · exfalso; apply hg
+        cases v with
+        | path tt => cases tt <;> simp [XOp.handles, h1]
+        | _ => simp [XOp.handles, h1]
+    obtain ⟨h1, _⟩ := linkApart_spec (s := { s with orig := id }) w ha
+    refine linkBudget_le O { s with orig := id } x v w hx ?_ (fun _ _ => rfl)
+    intro t hv
+    have ht : t < s.h.size := by
+      rcases Nat.lt_or_ge t s.h.size with hge | hge
+      · exact hge
+      · exfalso; apply hg; subst hv; simp [XOp.handles, hge]
+    exact ⟨ht, h1 t hv⟩
+
+/-- ... and its result is the same for all budgets from `6 * size + 3` on. -/
+theorem link_budget_independent_closed (f1 f2 : Nat) (s : X) (O : Oracle) (x : Nat) (v : LinkVal)
+    (w : WF s.h) (ha : linkApart O { s with orig := id } x v = true)
+    (h1 : 6 * s.h.size + 3 ≤ f1) (h2 : 6 * s.h.size + 3 ≤ f2) :
+    stepX f1 s O (.setLink x v) = stepX f2 s O (.setLink x v) :=
+  budget_irrelevant f1 f2 s O (.setLink x v) (link_terminates_closed f1 s O x v w ha h1)
+    (link_terminates_closed f2 s O x v w ha h2)
+
+/-- One bound for every operation: on a well-formed heap, under `opHyp`, a budget of
+    `6 * size + 3` is never used up by any operation of the extended set. -/
+theorem op_terminates_uniform (fuel : Nat) (s : X) (O : Oracle) (op : XOp) (w : WF s.h)
+    (hh : opHyp s O op = true) (hf : 6 * s.h.size + 3 ≤ fuel) : (stepX fuel s O op).2 ≠ .fuel := by
+  cases op with
+  | setLink x v =>
+    by_cases hk : (s.h.node x).kind ≠ .sec
+    · unfold stepX
+      simp only
+      split
+      · simp
+      · simp
+    · have ha : linkApart O { s with orig := id } x v = true := by
+        simp only [opHyp, Bool.or_eq_true, bne_iff_ne] at hh
+        rcases hh with h | h
+        · exact absurd h hk
+        · exact h
+      exact link_terminates_closed fuel s O x v w ha hf
+  | prim p => exact op_terminates fuel s O _ w hh (by simp only [opBudget]; omega)
+  | clone x ch kid => exact op_terminates fuel s O _ w hh (by simp only [opBudget]; omega)
+  | merge dest src => exact op_terminates fuel s O _ w hh (by simp only [opBudget]; omega)
+  | clean x => exact op_terminates fuel s O _ w hh (by simp only [opBudget]; omega)
+
 /-! ### Non-vacuity of the extended part -/
 
 def demoOracle : Oracle :=
@@ -521,5 +956,49 @@ example : (stepX 10 (runX 10 X.empty (demoXOps.take 6)) demoOracle (.merge 2 0))
 example : ((runX 10 X.empty (demoXOps.take 8)).h.node 2).secs = [4, 6] := by decide
 example : (runX 10 X.empty (demoXOps.take 9)).merged 4 = some 1 := by decide
 example : (runX 10 X.empty demoXOps).merged 4 = none := by decide
+
+/-! #### The hypotheses are satisfiable, and what they exclude -/
+
+-- the state after the first eight operations of `demoXOps` (below): doc(0) / a(1) / x(3),
+-- doc / b(2) / a'(4) / x'(5), b / x''(6): a' and a are apart, x and a are not
+example : WF (runX 10 X.empty (demoXOps.take 8)).h := wf_run_ext _ _ Heap.wf_empty _
+example : apart (runX 10 X.empty (demoXOps.take 8)).h 4 1 = true := by decide
+example : linkApart demoOracle { runX 10 X.empty (demoXOps.take 8) with orig := id } 4
+    (.path (some 1)) = true := by decide
+example : apart (runX 10 X.empty (demoXOps.take 8)).h 3 1 = false := by decide
+
+-- the whole demo history satisfies the hypothesis, with a budget of 24
+example : histHyp X.empty demoXOps = true ∧ histBudget X.empty demoXOps = 24 := by decide
+
+/-- doc(0) / a(1) / x(2), and `x` carries a stored link to `a`, its own parent. -/
+def ancestorLinkState : X :=
+  { (runX 10 X.empty [
+      (demoOracle, .prim (.construct .doc "" "d" none true)),
+      (demoOracle, .prim (.construct .sec "a" "i1" (some 0) true)),
+      (demoOracle, .prim (.construct .sec "x" "i2" (some 1) true))]) with
+    link := fun i => i == 2 }
+
+def ancestorRound1 : X × XOut := stepX 50 ancestorLinkState demoOracle (.setLink 2 (.path (some 1)))
+def ancestorRound2 : X × XOut := stepX 50 ancestorRound1.1 demoOracle (.setLink 3 (.path (some 1)))
+def ancestorRound3 : X × XOut := stepX 50 ancestorRound2.1 demoOracle (.setLink 5 (.path (some 1)))
+
+/-- The case the hypothesis `apart` excludes, as a witness: a Section linked to its own ancestor.
+    Every single assignment answers (here with budget 50), but resolving the link of `x` puts a copy
+    of `x` - carrying the same stored link - below `x`; resolving the link of that copy puts a copy
+    of the grown `x` below it, and so on: after the rounds 1, 2, 3 there are 4, 6, 10 objects, and
+    the deepest one (3, 5, 9) is again a childless Section with a stored link. A traversal that
+    resolves every stored link it meets (`Document.finalize()`) is handed a new one by every
+    step. `apart` is false for this pair. -/
+theorem ancestor_link_unfolds :
+    apart ancestorLinkState.h 2 1 = false ∧
+    (ancestorRound1.2 = .ok ∧ ancestorRound1.1.h.size = 4 ∧ (ancestorRound1.1.h.node 3).secs = [] ∧
+      (ancestorRound1.1.h.node 3).parent = some 2 ∧ ancestorRound1.1.link 3 = true) ∧
+    (ancestorRound2.2 = .ok ∧ ancestorRound2.1.h.size = 6 ∧ (ancestorRound2.1.h.node 5).secs = [] ∧
+      (ancestorRound2.1.h.node 5).parent = some 4 ∧ ancestorRound2.1.link 5 = true ∧
+      ancestorRound2.1.merged 5 = none) ∧
+    (ancestorRound3.2 = .ok ∧ ancestorRound3.1.h.size = 10 ∧ (ancestorRound3.1.h.node 9).secs = [] ∧
+      (ancestorRound3.1.h.node 9).parent = some 8 ∧ ancestorRound3.1.link 9 = true ∧
+      ancestorRound3.1.merged 9 = none) := by
+  decide
 
 end C03
